@@ -257,170 +257,6 @@ def p4_who_modifies(check: Check, rule: str = "P4") -> None:
 
 
 # --------------------------------------------------------------------------------------------- P5 / L1 / H1(modify)
-def modify_rules(check: Check, p5: bool = True, l1: bool = True, h1: bool = True) -> None:
-    p = check.program
-    fn = p.func("Consequent.modify")
-    check.analysed(fn)
-    r = Resolver(p, fn)
-    cfg = r.cfg
-    params = [x.name for x in fn.params]
-    deg_param, impl_param = params[1], params[2]
-    loops = loops_over(r, lambda b: is_path(b, "self.conclusions"))
-    if not loops:
-        raise AnalysisError("Consequent.modify: no loop over self.conclusions")
-    head, _, direction = loops[0]
-    body = cfg.loop_body(head)
-
-    def is_prop(t: Term) -> bool:
-        return t[0] == "elem" and is_path(iter_base(t[1])[0], "self.conclusions")
-
-    acts = [(n, c) for n, c in cfg.all_calls() if n in body and r.term(c.func, n) == ("global", "fuzzylite.term.Activated")]
-    appends = []
-    for n, c in cfg.find_calls(".append"):
-        if n not in body:
-            continue
-        recv = r.term(c.func.value, n)  # type: ignore[union-attr]
-        if recv[0] == "attr" and recv[2] == "terms" and recv[1][0] == "attr" and recv[1][2] == "fuzzy":
-            appends.append((n, c, recv))
-    if not acts or not appends:
-        check.violation("P5", "Consequent.modify/append", "no Activated term is appended to a fuzzy output", loc(fn))
-        return
-
-    def classify(t: Term, e):
-        if t[0] == "attr" and is_prop(t[1]):
-            return {"variable": "has_variable", "term": "has_term"}.get(t[2])
-        if t[0] == "attr" and t[2] == "enabled" and t[1][0] == "attr" and t[1][2] == "variable" and is_prop(t[1][1]):
-            return "enabled"
-        if t[0] == "call" and t[1] == ("global", "isinstance") and len(t[2]) == 2 and t[2][0][0] == "attr" and \
-                t[2][0][2] == "variable" and is_prop(t[2][0][1]) and t[2][1] == ("global", "fuzzylite.variable.OutputVariable"):
-            return "is_output"
-        if path_of(t) == "self.conclusions":
-            return "loaded"
-        return None
-
-    ev = RoleEval(r, classify)
-    outside = {n for n in cfg.nodes if n not in body}
-    if p5:
-        ee = early_exits(cfg, head)
-        check.require(not ee and direction == "forward", "P5", "Consequent.modify/all-conclusions",
-                      "every conclusion of the rule is processed (no break/return inside the loop over conclusions)" if not ee else
-                      f"the loop over conclusions is left early at line {ee[0].lineno} (`{type(ee[0].ast).__name__.lower()}`): conclusions after that point "
-                      "contribute nothing, e.g. everything after a conclusion on a disabled variable", loc(fn, ee[0] if ee else head))
-        res = {}
-        for en in (True, False):
-            env = {"enabled": en, "has_variable": True, "has_term": True, "is_output": True, "loaded": True}
-            pths = paths(cfg, body_entry(head), ev, env, outside | {head})
-            counts = {sum(1 for x in pa[:-1] if x in {a[0] for a in appends} and True) for pa in pths
-                      if not any(x.kind == "raise_exit" for x in pa)}
-            res[en] = counts
-        ok = res[True] == {1} and res[False] == {0}
-        check.require(ok, "P5", "Consequent.modify/one-per-enabled-conclusion",
-                      "each conclusion appends exactly one activated term iff its variable is enabled" if ok else
-                      f"appends per conclusion: enabled->{sorted(res[True])}, disabled->{sorted(res[False])}",
-                      loc(fn, appends[0][0]), exhaustive=True, cases=2)
-        # what is appended, and where
-        env = {"enabled": True, "has_variable": True, "has_term": True, "is_output": True, "loaded": True}
-        for pa in paths(cfg, body_entry(head), ev, env, outside | {head}):
-            if any(x.kind == "raise_exit" for x in pa):
-                continue
-            pr = PathResolver(p, fn, [cfg.entry] + _prefix_to(cfg, head) + pa)
-            for n, c, _ in appends:
-                if n not in pa:
-                    continue
-                i = pr.index_of(n)
-                recv = pr.at(c.func.value, i)  # type: ignore[union-attr]
-                arg = pr.at(c.args[0], i) if c.args else ("const", None)
-                same_var = recv == ("attr", ("attr", ("attr", _prop_term(pr, head), "variable"), "fuzzy"), "terms")
-                is_act = arg[0] == "call" and arg[1] == ("global", "fuzzylite.term.Activated")
-                a_args = list(arg[2]) + [v for k, v in arg[3]] if is_act else []
-                kw = dict(arg[3]) if is_act else {}
-                term_ok = is_act and len(arg[2]) >= 1 and arg[2][0] == ("attr", _prop_term(pr, head), "term")
-                impl_ok = is_act and ((len(arg[2]) >= 3 and arg[2][2] == ("param", impl_param)) or kw.get("implication") == ("param", impl_param))
-                check.require(same_var, "P5", "Consequent.modify/target",
-                              "the activated term goes to the fuzzy output of the conclusion's own variable" if same_var else
-                              f"appended to {show(recv)}", loc(fn, n))
-                check.require(term_ok, "P5", "Consequent.modify/term", "the activated term wraps the concluded term" if term_ok
-                              else f"Activated built from {show(arg)}", loc(fn, n))
-                check.require(impl_ok, "P5", "Consequent.modify/implication",
-                              "the activated term carries the implication operator passed to modify" if impl_ok else
-                              f"Activated built from {show(arg)}", loc(fn, n))
-                if is_act and len(arg[2]) >= 2:
-                    deg = arg[2][1]
-                    dep = mentions(deg, ("param", deg_param))
-                    check.require(dep, "P5", "Consequent.modify/degree", "the activated degree derives from the rule's activation degree"
-                                  if dep else f"degree is {show(deg)}", loc(fn, n))
-            break
-    if l1:
-        # L1: the degree argument of Activated must not read a value defined in a previous iteration
-        carried = cfg.carried_uses(head)
-        # backward slice from the degree argument(s)
-        seeds = []
-        for n, c in acts:
-            if len(c.args) >= 2:
-                seeds.append((n, c.args[1]))
-            for k in c.keywords:
-                if k.arg == "degree":
-                    seeds.append((n, k.value))
-        slice_uses: set[tuple[str, int]] = set()
-        work = []
-        from ..cfg import name_uses
-
-        for n, e in seeds:
-            for u in name_uses(e):
-                work.append((u.id, n))
-        seen = set()
-        while work:
-            name, n = work.pop()
-            if (name, n.id) in seen:
-                continue
-            seen.add((name, n.id))
-            slice_uses.add((name, n.id))
-            for d in cfg.defs_reaching(name, n):
-                if d.node not in body or d.value is None:
-                    continue
-                for u in name_uses(d.value):
-                    work.append((u.id, d.node))
-                if d.kind == "aug":
-                    work.append((d.name, d.node))
-        bad = sorted({(name, n.lineno, d.node.lineno) for name, n, d in carried if (name, n.id) in slice_uses})
-        names = sorted({b[0] for b in bad})
-        if bad:
-            # keyed by the role of what is carried, not by a local's name: the degree the method was given (the parameter itself, or a
-            # local initialised from it before the loop) re-assigned across conclusions - or something else carried into the degree
-            it_nodes = [q for q, _ in head.pred if q.kind == "iter"]
-
-            def is_given_degree(nm: str) -> bool:
-                if nm == deg_param:
-                    return True
-                outside = [d for d in cfg.defs_reaching(nm, it_nodes[0] if it_nodes else head) if d.node not in body]
-                return bool(outside) and all(d.value is not None and r.term(d.value, d.node) == ("param", deg_param) for d in outside)
-
-            via_param = all(is_given_degree(nm) for nm in names)
-            rows = list(bad)
-            check.violation("L1", "Consequent.modify/degree-carried" if via_param else "Consequent.modify/carried-through:" + "+".join(names),
-                            f"the degree given to a conclusion reads `{'`, `'.join(names)}` as modified by the hedges of an earlier "
-                            f"conclusion (defined at line {rows[0][2]} in a previous iteration, read at line {rows[0][1]}): "
-                            "conclusions are not independent", loc(fn, head), {"carried": rows, "variables": names})
-        else:
-            check.ok("L1", "Consequent.modify/independent", "the degree of each conclusion has no loop-carried definition "
-                     "with respect to the loop over conclusions", loc(fn, head))
-    if h1:
-        hl = [(h, d) for h, b, d in loops_over(r, lambda b: b[0] == "attr" and b[2] == "hedges" and is_prop(b[1])) if h in body]
-        ok = bool(hl) and all(d == "reverse" for _, d in hl)
-        check.require(ok, "H1", "Consequent.modify/hedge-order",
-                      "hedges of a conclusion are applied from the one nearest the term outwards (reversed)" if ok else
-                      "hedges of a conclusion are not applied in reverse reading order", loc(fn, hl[0][0] if hl else head))
-        # every hedge is applied whatever the degree is: only the structural conditions (enabled, has a variable/term, ...) guard the hedge loop
-        odd = []
-        for h, _ in hl:
-            for g, pol, gn in cfg.must_guards(h):
-                if gn in body and any(classify(a, None) is None for a in _atoms(r.term(g, gn))):
-                    odd.append((gn, unparse(g)))
-            odd += [(x, type(x.ast).__name__.lower()) for x in early_exits(cfg, h)]
-        check.require(bool(hl) and not odd, "H1", "Consequent.modify/hedges-unconditional",
-                      "all hedges of an enabled conclusion are applied, whatever the activation degree is" if not odd else
-                      f"the hedges of a conclusion are applied only when `{odd[0][1][:70]}`: hedges such as `not` and `any` map 0 to 1, so skipping "
-                      "them changes the contribution of the conclusion", loc(fn, odd[0][0] if odd else head))
 
 
 def _atoms(t: Term) -> list[Term]:
@@ -432,26 +268,8 @@ def _atoms(t: Term) -> list[Term]:
     return [t]
 
 
-def _prefix_to(cfg, head):
-    """A node sequence from the function entry to (excluding) the loop head's body, for path-sensitive resolution."""
-    # straight-line prefix: follow unique non-exc successors / true-false by preferring the one that reaches head
-    out = []
-    n = first_node(cfg)
-    guard = 0
-    while n is not head and guard < 500:
-        guard += 1
-        out.append(n)
-        nxt = [s for s, l in n.succ if l != "exc" and head in cfg.reach([s])]
-        if not nxt:
-            break
-        n = nxt[0]
-    out.append(head)
-    return out
 
 
-def _prop_term(pr: PathResolver, head) -> Term:
-    i = pr.index_of(head, last=False)
-    return pr.at(head.ast.target, i + 1)
 
 
 # --------------------------------------------------------------------------------------------- T2
